@@ -732,6 +732,125 @@ func ruleCacheFromDisk(c *Ctx, ls *loaderSSA) {
 		}
 	}
 	c.census("G-CACHEDISK", "stores into the per-file cache", n, 1)
+	// G-CACHEENV: ... and nothing else that was read from the environment.  What an entry holds - when it is made
+	// and whenever something is written into it later (a field store, an element of a map or slice kept in one of
+	// its fields) - is computed from the file's content alone: no directory listing or glob expansion, no file
+	// size or time stamp, no clock.  Such a value describes the file system at the time of an earlier load; the
+	// entry is dropped only when its own file changes, so a new file matching the pattern never appears.
+	envRead := func(v ssa.Value) string {
+		call, ok := v.(*ssa.Call)
+		if !ok {
+			return ""
+		}
+		cal := call.Call.StaticCallee()
+		if cal == nil || cal.Pkg == nil || inModule(cal) {
+			return ""
+		}
+		pp, name := cal.Pkg.Pkg.Path(), cal.Name()
+		switch {
+		case pp == "os" && name != "ReadFile" && name != "IsNotExist" && name != "IsExist" && name != "IsPermission":
+			return "os." + name
+		case pp == "io/fs", pp == "math/rand", pp == "math/rand/v2":
+			return pp + "." + name
+		case pp == "path/filepath" && (name == "Glob" || name == "Walk" || name == "WalkDir" || name == "EvalSymlinks"):
+			return "filepath." + name
+		case pp == "time" && (name == "Now" || name == "Since" || name == "Until"):
+			return "time." + name
+		case strings.Contains(pp, "doublestar") && name != "ValidatePattern" && name != "Match" && name != "PathMatch":
+			return "doublestar." + name
+		}
+		return ""
+	}
+	envIn := func(v ssa.Value) string {
+		sl, _ := backSlicePrecise(v)
+		var hits []string
+		for w := range sl {
+			if e := envRead(w); e != "" {
+				hits = append(hits, e)
+			}
+		}
+		sort.Strings(hits)
+		if len(hits) > 0 {
+			return hits[0]
+		}
+		return ""
+	}
+	var entryT types.Type
+	nEnv := 0
+	for _, f := range ls.fns {
+		for _, b := range f.Blocks {
+			for _, ins := range b.Instrs {
+				mu, ok := ins.(*ssa.MapUpdate)
+				if !ok || ls.cache == nil || mapFieldOf(mu.Map) != ls.cache {
+					continue
+				}
+				entryT = mu.Value.Type()
+				nEnv++
+				bad := envIn(mu.Value)
+				c.check(bad == "", "G-CACHEENV", funcName(f), "a cached entry is computed from the file's content alone", mu.Pos(),
+					"nothing read from the environment but the file's text flows into the entry",
+					"the per-file cache receives an entry that holds something read from the environment ("+bad+"): it describes the file system at the time of that load and is served on later loads although only a change of the file itself drops the entry")
+			}
+		}
+	}
+	if entryT != nil {
+		isEntryPtr := func(t types.Type) bool { return types.Identical(t, entryT) }
+		// the entry a write goes through: x.f = v, x.f[k] = v, x.f[i] = v, x.f = append(x.f, v)
+		entryBase := func(addr ssa.Value) bool {
+			for depth := 0; addr != nil && depth < 4; depth++ {
+				switch x := addr.(type) {
+				case *ssa.FieldAddr:
+					if isEntryPtr(x.X.Type()) {
+						if _, fresh := x.X.(*ssa.Alloc); !fresh {
+							return true
+						}
+					}
+					addr = x.X
+				case *ssa.IndexAddr:
+					addr = x.X
+				case *ssa.UnOp:
+					if x.Op != token.MUL {
+						return false
+					}
+					addr = x.X
+				default:
+					return false
+				}
+			}
+			return false
+		}
+		for _, f := range c.P.ModuleFuncs() {
+			if f.Pkg == nil || (len(ls.fns) > 0 && f.Pkg != ls.fns[0].Pkg) {
+				continue
+			}
+			k := 0
+			for _, b := range f.Blocks {
+				for _, ins := range b.Instrs {
+					var val ssa.Value
+					switch x := ins.(type) {
+					case *ssa.Store:
+						if entryBase(x.Addr) {
+							val = x.Val
+						}
+					case *ssa.MapUpdate:
+						if entryBase(x.Map) {
+							val = x.Value
+						}
+					}
+					if val == nil {
+						continue
+					}
+					k++
+					nEnv++
+					bad := envIn(val)
+					c.check(bad == "", "G-CACHEENV", funcName(f), fmt.Sprintf("write #%d into a cached entry is computed from the file's content alone", k), ins.Pos(),
+						"nothing read from the environment flows into the entry",
+						"something read from the environment ("+bad+") is written into an entry of the per-file cache after it was made: the entry now remembers the state of the file system at an earlier load (the matches of a glob pattern, a size, a time stamp) and later loads are answered from it although only a change of the file itself drops the entry")
+				}
+			}
+		}
+	}
+	c.census("G-CACHEENV", "entries put into the per-file cache and writes into cached entries", nEnv, 1)
 }
 
 // ruleEncoderFresh (T12-FRESH): the array a semantic-tokens response carries - and the token cache keeps for the
@@ -1120,8 +1239,49 @@ func ruleParserState(c *Ctx) {
 					}
 					loads(al)
 				}
-			case *ssa.MakeSlice, *ssa.If, *ssa.Jump:
-				// a size or a branch: not a flow of the value
+			case *ssa.MakeSlice, *ssa.Jump:
+				// a size: not a flow of the value
+			case *ssa.If:
+				// a branch is not a flow of the value - unless it compares the state with something read from the
+				// entry (a commodity equal to the remembered one, a byte equal to the remembered mark): what is
+				// computed under such a branch depends on the state's content, not merely on its being set
+				cmp, ok := v.(*ssa.BinOp)
+				if !ok {
+					continue
+				}
+				switch cmp.Op {
+				case token.EQL, token.NEQ, token.LSS, token.LEQ, token.GTR, token.GEQ:
+				default:
+					continue
+				}
+				if _, isConst := cmp.X.(*ssa.Const); isConst {
+					continue
+				}
+				if _, isConst := cmp.Y.(*ssa.Const); isConst {
+					continue
+				}
+				for _, b := range x.Parent().Blocks {
+					dep := false
+					for _, cc := range controlDeps(b) {
+						if cc.Cond == x.Cond {
+							dep = true
+						}
+					}
+					if !dep {
+						continue
+					}
+					for _, bi := range b.Instrs {
+						switch y := bi.(type) {
+						case *ssa.Phi, *ssa.If, *ssa.Jump, *ssa.Return:
+						case *ssa.Store:
+							if _, isC := y.Val.(*ssa.Const); !isC {
+								flow(y.Val, depth+1, seen, out)
+							}
+						case ssa.Value:
+							flow(y, depth+1, seen, out)
+						}
+					}
+				}
 			case *ssa.Return:
 				for _, site := range cg.callersOf(x.Parent()) {
 					if cv, ok := site.(*ssa.Call); ok {
@@ -1148,6 +1308,11 @@ func ruleParserState(c *Ctx) {
 						if a == v && i < len(cal.Params) {
 							flow(cal.Params[i], depth+1, seen, out)
 						}
+					}
+					// what the callee returns may depend on the argument through its branches (a text rebuilt byte
+					// by byte under comparisons with the argument)
+					if cv, ok := r.(ssa.Value); ok && cal.Signature.Results().Len() > 0 && cal.Signature.Recv() == nil {
+						flow(cv, depth+1, seen, out)
 					}
 					continue
 				}
